@@ -38,6 +38,19 @@ def gen_cases(tier, rng, n_random):
         sc = list(subcases(vs, d, u))
         for T, C in rng.sample(sc, min(len(sc), 3)):
             yield {"nodes": vs, "directed": d, "undirected": u, "T": T, "C": C, "seed": rng.randrange(1 << 30)}
+    # branching districts: a random bidirected spanning tree over all five nodes plus up to two more bidirected edges, few directed edges
+    for _ in range(n_random):
+        vs = oracles.names(5)
+        order = rng.sample(vs, 5)
+        u = [tuple(sorted((order[i], order[rng.randrange(i)]))) for i in range(1, 5)]
+        extra_u = [tuple(sorted(e)) for e in itt.combinations(vs, 2) if tuple(sorted(e)) not in u]
+        u += rng.sample(extra_u, rng.choice([0, 1, 2]))
+        topo = rng.sample(vs, 5)
+        pos = {v: i for i, v in enumerate(topo)}
+        d = [(a, b) for a in vs for b in vs if pos[a] < pos[b] and rng.random() < 0.25]
+        sc = [(T, C) for T, C in subcases(vs, d, u) if 2 <= len(C) <= 3]
+        for T, C in rng.sample(sc, min(len(sc), 3)):
+            yield {"nodes": vs, "directed": d, "undirected": u, "T": T, "C": C, "seed": rng.randrange(1 << 30)}
 
 
 def run_case(c):
